@@ -14,6 +14,15 @@ Families (all exhaustive over the stated finite spaces):
      the real parser accepts is dumped, re-loaded and dumped again
   e  the entries of (c) through real files: plain, gz, bz2, lzma, xz via
      gemato.compression.open_potentially_compressed_path
+  g  one entry object dumped, changed field by field to another menu entry of the same tag
+     and dumped again (all ordered pairs of a per-tag menu)
+  h  LENGTH: paths holding n characters that need escaping, n in 1, 2, 31, 32, 33, 34, 64,
+     100, 300 (thorough: 25 counts up to 1000), for 8 (thorough: 16) such characters
+     (space, backslash, control characters, Unicode spaces, a surrogateescape byte) in the
+     layouts pure c*n / p+c*n+p / (p+c)*n+p, plus three mixed layouts cycling through all of
+     them (bare, between plain characters, followed by hex-digit-like text), for every
+     path-carrying tag (MANIFEST DATA DIST EBUILD MISC AUX IGNORE) x every codec
+     (io.StringIO, plain file, gz, bz2, lzma, xz)
 
 Checks per entry list E: dump(E) has exactly len(E) lines, fields separated by single
 U+0020 and free of any other whitespace-like character; load(dump(E)) == E field-wise;
@@ -45,12 +54,19 @@ RULE = ('families a-e of the module doc, each enumerated completely: (a) all 1,1
         'ordered entry lists (with repetition) over a 14-entry menu, unsorted and sorted dump; '
         '(d) every text of C09 families A and D (thorough: also C and B up to length 5) accepted '
         'by the real parser; (e) the lists of (c) '
-        'through plain/gz/bz2/lzma/xz files.  One evaluation = one entry list (or accepted text) '
+        'through plain/gz/bz2/lzma/xz files; (g) all ordered pairs of a per-tag menu on one '
+        're-used entry object; (h) the full product count-of-characters-needing-escaping n in '
+        '{1, 2, 31, 32, 33, 34, 64, 100, 300} (thorough: 25 counts up to 1000) x 8 (thorough: '
+        '16) characters that need escaping x 3 layouts (c*n, p c*n p, (p c)*n p) + 3 mixed '
+        'layouts over all of them, x the 7 path-carrying tags x 6 codecs (StringIO, plain, gz, '
+        'bz2, lzma, xz), same oracle as (c)/(e) (thorough: unsorted and sorted dump).  '
+        'One evaluation = one entry list (or accepted text) '
         'pushed through dump -> load -> dump plus the cross-checks against the reference '
         'parser/writer.  Distinct-case descriptor: (a) (embedding, tag, code point >> 12) - a '
         '4096-code-point block, to bound memory; (b) (tag, string); (c) the entry / the entry '
         'index sequence + sort flag; (d) C09\'s descriptor of the text; (e) (format, entry index '
-        'sequence, sort flag).  A descriptor is non-trivial when a real dump+load round trip was '
+        'sequence, sort flag); (g) the pair of entries; (h) (codec, tag, layout, character, n, '
+        'sort flag).  A descriptor is non-trivial when a real dump+load round trip was '
         'executed and compared for it (for (d): the text was accepted by the parser and contains '
         'at least one entry).')
 ASSUMPTIONS = [
@@ -66,6 +82,10 @@ ASSUMPTIONS = [
     'family (e) trusts CPython gzip/bz2/lzma (gverif.treemodel.compress/decompress) as the '
     'independent (de)compressor; files live on tmpfs scratch only',
     'family (d) inherits the text space of C09 (families A and D)',
+    'family (h) bounds the number of characters needing escaping in ONE path by 300 (quick) / '
+    '1000 (thorough) at the listed counts only (1, 2 and the neighbourhoods of 32 and, in the '
+    'thorough tier, of every power of two up to 256); the path has no "/" so that it is also a '
+    'valid DIST name; one entry per Manifest',
 ]
 
 FMTS = (None, 'gz', 'bz2', 'lzma', 'xz')
@@ -511,6 +531,72 @@ def seqs_from(first, maxlen, n=14):
             yield (first,) + rest
 
 
+# ---------------------------------------------------------------- family h: length
+
+H_TAGS = FILE_TAGS + ('IGNORE',)
+H_CODECS = ('stringio', None, 'gz', 'bz2', 'lzma', 'xz')
+H_COUNTS_QUICK = (1, 2, 31, 32, 33, 34, 64, 100, 300)
+H_COUNTS_THOROUGH = tuple(sorted(set(H_COUNTS_QUICK + (
+    3, 8, 15, 16, 17, 30, 35, 63, 65, 127, 128, 129, 255, 256, 257, 1000))))
+# characters the writer has to escape (whitespace, controls, backslash, surrogateescape byte)
+H_CHARS_QUICK = (' ', '\\', '\t', '\n', '\x7f', '\u0085', '\u3000', '\udc80')
+H_CHARS_THOROUGH = H_CHARS_QUICK + ('\x00', '\x0b', '\r', '\x1f', '\u00a0', '\u2028', '\u2029',
+                                    '\udcff')
+H_LAYOUTS = ('pure', 'run', 'sep')
+H_MIXED = ('mix', 'mixsep', 'mixhex')
+
+
+def h_counts(tier):
+    return H_COUNTS_QUICK if tier == 'quick' else H_COUNTS_THOROUGH
+
+
+def h_chars(tier):
+    return H_CHARS_QUICK if tier == 'quick' else H_CHARS_THOROUGH
+
+
+def h_path(layout, ci, n, tier, seed):
+    """The path of family h: exactly n characters that need escaping."""
+    p = _ONE[seed % len(_ONE)]
+    chars = h_chars(tier)
+    if layout == 'pure':
+        return chars[ci] * n
+    if layout == 'run':
+        return p + chars[ci] * n + p
+    if layout == 'sep':
+        return (p + chars[ci]) * n + p
+    if layout == 'mix':
+        return ''.join(chars[i % len(chars)] for i in range(n))
+    if layout == 'mixsep':
+        return ''.join(p + chars[i % len(chars)] for i in range(n)) + p
+    if layout == 'mixhex':
+        return ''.join(chars[i % len(chars)] + 'x41' for i in range(n))
+    raise ValueError(layout)
+
+
+def h_patterns(tier):
+    """-> [(layout, character index or None, n)]"""
+    out = []
+    for n in h_counts(tier):
+        for ci in range(len(h_chars(tier))):
+            out += [(lay, ci, n) for lay in H_LAYOUTS]
+        out += [(lay, None, n) for lay in H_MIXED]
+    return out
+
+
+def h_sorts(tier):
+    return (False,) if tier == 'quick' else (False, True)
+
+
+def h_spec(tag, path):
+    return ('IGNORE', path) if tag == 'IGNORE' else (tag, path, 2 ** 32 + 5, CKSETS[2])
+
+
+def check_h(spec, sort, codec, scratch, stats):
+    if codec == 'stringio':
+        return check_specs([spec], sort, stats)
+    return check_file([spec], sort, codec, scratch, stats)
+
+
 # ---------------------------------------------------------------- shards
 
 A_BLOCK = 0x8000
@@ -529,6 +615,8 @@ def shards(tier, seed):
     out += [('c3', i) for i in range(14)]
     out += [('c1', tag) for tag in FILE_TAGS + ('IGNORE+TS',)]
     out += [('g', tag) for tag in FILE_TAGS + ('IGNORE', 'TIMESTAMP')]
+    out += [('h', codec, tag) for codec in ('lzma', 'xz', 'bz2', 'gz', None, 'stringio')
+            for tag in H_TAGS]
     return out
 
 
@@ -686,6 +774,25 @@ def run_shard(spec, tier, seed, scratch):
                     _emit(stats, bad, {'family': 'e', 'specs': specs, 'sort': sort, 'fmt': fmt})
         if first == 6 and fmt == 'xz':
             stats.sample({'family': 'e', 'fmt': fmt, 'entries': [menu[6], menu[12]]})
+    elif fam == 'h':
+        _f, codec, tag = spec
+        for lay, ci, n in h_patterns(tier):
+            p = h_path(lay, ci, n, tier, seed)
+            s = h_spec(tag, p)
+            for sort in h_sorts(tier):
+                bad = check_h(s, sort, codec, scratch, stats)
+                stats.case(('h', codec, tag, lay, ci, n, sort), True)
+                stats.counters['h_cases'] += 1
+                stats.counters['h_cases_n=%d' % n] += 1
+                stats.counters['h_cases_codec=%s' % (codec or 'plain')] += 1
+                stats.outcomes['h: %s 32 characters to escape/%s' % (
+                    'more than' if n > 32 else 'at most', 'violation' if bad else 'ok')] += 1
+                if bad:
+                    _emit(stats, bad, {'family': 'h', 'specs': [s], 'sort': sort, 'codec': codec,
+                                       'n_to_escape': n, 'layout': lay})
+        if codec == 'stringio' and tag == 'MISC':
+            s = h_spec(tag, h_path('mixhex', None, 33, tier, seed))
+            stats.sample({'family': 'h', 'entry': s, 'dumped': g_dump([mk_entry(s)])[2]})
     else:
         raise ValueError(spec)
     stats.counters['family_' + fam[0]] += 1
@@ -748,7 +855,9 @@ def replay(case, scratch):
         bad = check_text_fixed_point(case['text'], stats)[0]
     else:
         specs = [_spec_from_json(s) for s in case['specs']]
-        if fam == 'e':
+        if fam == 'h':
+            bad = check_h(specs[0], case['sort'], case['codec'], scratch, stats)
+        elif fam == 'e':
             bad = check_file(specs, case['sort'], case.get('fmt'), scratch, stats)
         else:
             bad = check_specs(specs, case['sort'], stats)
@@ -757,7 +866,7 @@ def replay(case, scratch):
 
 def finish(total, tier):
     errs = []
-    for f in 'abcdeg':
+    for f in 'abcdegh':
         if not total.counters.get('family_' + f):
             errs.append(f'vacuity: family {f} did not run')
     # '/' alone is skipped for every tag
@@ -770,6 +879,18 @@ def finish(total, tier):
     for fmt in ('plain', 'gz', 'bz2', 'lzma', 'xz'):
         if not total.outcomes.get(f'e/{fmt}/ret'):
             errs.append(f'vacuity: nothing was read back through {fmt}')
+    per_n = (len(h_chars(tier)) * len(H_LAYOUTS) + len(H_MIXED)) * len(H_TAGS) * len(H_CODECS) \
+        * len(h_sorts(tier))
+    for n in h_counts(tier):
+        if total.counters.get('h_cases_n=%d' % n) != per_n:
+            errs.append(f'family h executed {total.counters.get("h_cases_n=%d" % n)} cases with '
+                        f'{n} characters to escape, expected {per_n}')
+    for codec in H_CODECS:
+        if not total.counters.get('h_cases_codec=%s' % (codec or 'plain')):
+            errs.append(f'vacuity: family h explored nothing through {codec or "plain"}')
+    for cls in ('at most', 'more than'):
+        if not any(k.startswith('h: %s 32' % cls) for k in total.outcomes):
+            errs.append(f'vacuity: family h has no case with {cls} 32 characters to escape')
     if not any(k.startswith('e: lone surrogate') for k in total.dontcare):
         errs.append('vacuity: the lone-surrogate DONT_CARE of family e was never met')
     return errs
@@ -790,4 +911,10 @@ def extra_evidence(total, tier):
         'e': f'{len(single_specs(0))} single entries and all sequences of length '
              f'1..{file_list_maxlen(tier)} over the 14-entry menu (sorted and unsorted) x '
              'plain/gz/bz2/lzma/xz',
+        'g': 'all ordered pairs of a per-tag menu on one re-used entry object',
+        'h': f'n in {list(h_counts(tier))} characters to escape x ({len(h_chars(tier))} characters '
+             f'{[c.encode("unicode_escape").decode() for c in h_chars(tier)]} x layouts '
+             f'{list(H_LAYOUTS)} + mixed layouts {list(H_MIXED)}) x tags {list(H_TAGS)} x codecs '
+             f'{[c or "plain" for c in H_CODECS]} x sort in {list(h_sorts(tier))} = '
+             f'{len(h_patterns(tier)) * len(H_TAGS) * len(H_CODECS) * len(h_sorts(tier))} cases',
     }}
